@@ -484,6 +484,141 @@ def run_lp_root_forms(rep, rng, thorough):
                         rep.oracle_failures.append(bad)
 
 
+# ----------------------------------------------------------------------------- start points (NLP route)
+
+GRADIENT_METHODS = ["auto", "L-BFGS-B", "BFGS", "CG", "TNC", "SLSQP", "trust-constr", "Newton-CG"]
+DERIVATIVE_FREE = ["Nelder-Mead", "Powell", "COBYLA"]
+START_KINDS = ["default", "optimum", "previous", "corner", "other"]
+
+
+def start_problem(data):
+    """±(c0 + Σ aᵢ (xᵢ − tᵢ)²): convex when minimised, concave when maximised; optional box and an optional
+    single-variable constraint; -> (problem, variables, known optimum point, known optimal value)"""
+    from optyx import Problem, Variable
+
+    n = len(data["t"])
+    vs = [Variable(f"s{i}", lb=data["lb"][i], ub=data["ub"][i]) for i in range(n)]
+    body = data["c0"]
+    for i in range(n):
+        body = body + data["a"][i] * (vs[i] - data["t"][i]) ** 2
+    P = Problem()
+    if data["sense"] == "min":
+        P.minimize(body)
+    else:
+        P.maximize(-1.0 * body if data["negate_by_mul"] else -body)
+    lo = [(-math.inf if b is None else b) for b in data["lb"]]
+    hi = [(math.inf if b is None else b) for b in data["ub"]]
+    con = data.get("con")
+    if con is not None:
+        i, sense, u = con
+        P.subject_to(vs[i] <= u if sense == "<=" else vs[i] >= u)
+        if sense == "<=":
+            hi[i] = min(hi[i], u)
+        else:
+            lo[i] = max(lo[i], u)
+    xopt = [min(max(data["t"][i], lo[i]), hi[i]) for i in range(n)]
+    fbody = data["c0"] + sum(data["a"][i] * (xopt[i] - data["t"][i]) ** 2 for i in range(n))
+    return P, vs, xopt, (fbody if data["sense"] == "min" else -fbody)
+
+
+def start_point(kind, data, vs, xopt, prev):
+    if kind == "default":
+        return None
+    if kind == "optimum":
+        return list(xopt)
+    if kind == "previous":
+        return None if prev is None else [prev[v.name] for v in vs]
+    if kind == "corner":
+        return [(v.lb if v.lb is not None else (v.ub if v.ub is not None else data["t"][i] + 1.0)) for i, v in enumerate(vs)]
+    return [min(max(data["t"][i] + data["shift"][i], -1e9 if v.lb is None else v.lb), 1e9 if v.ub is None else v.ub)
+            for i, v in enumerate(vs)]
+
+
+def start_case(data):
+    """-> (failure dict | None, tag)"""
+    P, vs, xopt, fopt = start_problem(data)
+    prev = None
+    with warnings.catch_warnings(), np.errstate(all="ignore"):
+        warnings.simplefilter("ignore")
+        try:
+            if data["start"] == "previous":
+                first = P.solve(method=data["method"])
+                prev = dict(first.values) if first.values else None
+            x0 = start_point(data["start"], data, vs, xopt, prev)
+            kw = {} if x0 is None else {"x0": np.array(x0, dtype=float)}
+            sol = P.solve(method=data["method"], **kw)
+        except Exception as e:  # noqa: BLE001
+            return None, "raise:" + type(e).__name__
+    if not sol.values or sol.objective_value is None:
+        return None, sol.status.name
+    names = [v.name for v in P.variables]
+    if list(sol.values) != names:
+        return {"what": "keys of values differ from the problem's variable names", "keys": list(sol.values)}, sol.status.name
+    xs = [sol.values[v.name] for v in vs]
+    if not all(math.isfinite(v) for v in xs) or not math.isfinite(sol.objective_value):
+        return None, sol.status.name + ":nonfinite"
+    want = float(P.objective.evaluate(sol.values))
+    body = data["c0"] + sum(data["a"][i] * (xs[i] - data["t"][i]) ** 2 for i in range(len(xs)))
+    ind = body if data["sense"] == "min" else -body
+    scale = 1.0 + abs(data["c0"]) + sum(data["a"][i] * (abs(xs[i]) + abs(data["t"][i])) ** 2 for i in range(len(xs)))
+    if abs(want - sol.objective_value) > 1e-7 * scale or abs(ind - sol.objective_value) > 1e-7 * scale:
+        return {"what": "objective_value differs from the objective evaluated at the reported values",
+                "objective_value": sol.objective_value, "objective_at_values": want, "independent": ind,
+                "values": dict(sol.values), "status": sol.status.name}, sol.status.name
+    # the known optimum is only demanded of gradient-based methods: SciPy's simplex / direction-set methods
+    # report success at non-optimal points when the start lies on (or 1e-4 from) a bound — solver quality (C09)
+    if sol.status.name == "OPTIMAL" and data["method"] not in DERIVATIVE_FREE and abs(sol.objective_value - fopt) > 1e-3 * scale:
+        return {"what": "status OPTIMAL but the objective value is not the known optimum of this separable quadratic",
+                "objective_value": sol.objective_value, "known_optimum": fopt, "known_point": xopt,
+                "values": dict(sol.values)}, sol.status.name
+    return None, sol.status.name
+
+
+def run_start_points(rep, rng, thorough):
+    """start-point family × sense × method class × box / constraint: default start, x0 = the optimum,
+    x0 = the previous solution (second solve of the same Problem), x0 on a corner of the box, x0 elsewhere"""
+    n_cases = 2500 if thorough else 500
+    for i in range(n_cases):
+        n = rng.randint(1, 3)
+        sense = rng.choice(["min", "max"])
+        symmetric = rng.random() < 0.4         # optimum at the origin = default start of unbounded variables
+        t = [0.0] * n if symmetric else [rng.dy(-2, 2) for _ in range(n)]
+        box = rng.choice(["none", "none", "inside", "on-bound", "outside", "one-sided"])
+        lb, ub = [], []
+        for j in range(n):
+            if box == "none":
+                lb.append(None); ub.append(None)
+            elif box == "inside":
+                lb.append(t[j] - rng.choice([1.0, 2.0, 0.5])); ub.append(t[j] + rng.choice([1.0, 3.0]))
+            elif box == "on-bound":
+                lb.append(t[j]); ub.append(t[j] + 2.0)
+            elif box == "outside":
+                lb.append(t[j] + 0.5); ub.append(t[j] + 2.5)
+            else:
+                lb.append(t[j] - 1.0); ub.append(None)
+        con = None
+        c = rng.random()
+        if c < 0.15:
+            con = [0, "<=", t[0] + 4.0]      # inactive
+        elif c < 0.3:
+            con = [0, "<=", t[0] - 0.5] if (lb[0] is None or lb[0] <= t[0] - 0.5) else [0, ">=", (lb[0] or 0.0)]
+        method = rng.choice(GRADIENT_METHODS) if i % 4 != 3 else rng.choice(DERIVATIVE_FREE)
+        data = {"sense": sense, "t": t, "a": [rng.choice([1.0, 2.0, 0.5, 4.0]) for _ in range(n)],
+                "c0": rng.choice([10.0, -3.0, 2.5, 7.0, -0.5]), "lb": lb, "ub": ub, "con": con, "method": method,
+                "start": START_KINDS[(i // 4) % len(START_KINDS)], "shift": [rng.choice([1.0, -1.5, 0.25]) for _ in range(n)],
+                "negate_by_mul": bool(rng.randint(0, 1))}
+        bad, tag = start_case(data)
+        rep.evaluations += 1
+        cls = "derivative-free" if method in DERIVATIVE_FREE else "gradient"
+        k = f"start:{data['start']}:{sense}:{cls}:{'con' if con else 'nocon'}:{tag}"
+        rep.histogram[k] = rep.histogram.get(k, 0) + 1
+        if tag == "OPTIMAL":
+            rep.nontrivial.add(hash(("start", str(data))))
+        if bad is not None:
+            bad.update({"kind_of_case": "start", "data": data})
+            rep.oracle_failures.append(bad)
+
+
 def vm_case(data):
     """one problem written with vector / matrix handles; -> (status, list of failed look-up checks)"""
     from optyx import MatrixVariable, Problem, VectorVariable
@@ -565,6 +700,7 @@ def run(ctx) -> core.Report:
     getitem_cases(rep, rng, recs)
     rep.exhaustive = True
     run_lp_root_forms(rep, rng, thorough)
+    run_start_points(rep, rng, thorough)
     base.run_real_solves(rep, rng, 1500 if thorough else 120, check_consistent)
     vector_matrix_solves(rep, rng, 300 if thorough else 30)
     for meta, P, text, info in metas[:4000:997]:
@@ -581,6 +717,9 @@ def search(ctx, rep):
     if r2.oracle_failures:
         return r2.oracle_failures[0]
     run_lp_root_forms(r2, rng, True)
+    if r2.oracle_failures:
+        return r2.oracle_failures[0]
+    run_start_points(r2, rng, False)
     if r2.oracle_failures:
         return r2.oracle_failures[0]
     getitem_cases(r2, rng, recipes(rng, thorough=True))
@@ -608,7 +747,7 @@ def replay(payload) -> bool:
         if kind == "stub":
             P = base.build_problem(base.SHAPES[c["shape"]]["spec"])[0]
             text, info = base.observe(P, c["kind"], c["method"], False, c["use_hessian"], c["tol"], base.Res(*c["r1"]),
-                                      base.Res(*c["r2"]), base.DUMMY_LRES)
+                                      base.Res(*c["r2"]), base.DUMMY_LRES, x0=c.get("x0"))
         else:
             P = base.build_problem(c["spec"])[0]
             text, info = base.observe(P, c["kind"], c["method"], False, True, None, base.DUMMY_RES, base.DUMMY_RES,
@@ -632,6 +771,10 @@ def replay(payload) -> bool:
         print(got)
         els = handle_elements(h)
         return list(np.asarray(got, dtype=float).ravel()) == [f["values"][v.name] for v in els]
+    if kind == "start":
+        bad, tag = start_case(f["data"])
+        print(tag, bad)
+        return bad is None
     if kind == "lp-root":
         bad, status = lp_root_check(f["case"])
         print("status:", status, bad)
